@@ -12,7 +12,7 @@ import (
 
 func closedForms(r *vlib.Run) {
 	// uniform emitter enclosing the camera: every pixel equals the emission, whatever the settings
-	r.Section("closed.uniform", r.N(40, 400), vlib.SectionOpts{Sequential: true}, func(c *vlib.Case) {
+	r.Section("closed.uniform", r.N(40, 2000), vlib.SectionOpts{Sequential: true}, func(c *vlib.Case) {
 		rng := c.Rng
 		cam := randCamera(rng)
 		e := render3d.Color{X: 0.1 + rng.Float64(), Y: 0.1 + rng.Float64(), Z: 0.1 + rng.Float64()}
@@ -49,7 +49,7 @@ func closedForms(r *vlib.Run) {
 	})
 
 	// one matte plane lit by one point light, through the ray caster and the ray tracer (depth 0)
-	r.Section("closed.lambert", r.N(40, 400), vlib.SectionOpts{Sequential: true}, func(c *vlib.Case) {
+	r.Section("closed.lambert", r.N(40, 2000), vlib.SectionOpts{Sequential: true}, func(c *vlib.Case) {
 		rng := c.Rng
 		// plane z=0 as a large thin box top; camera above looking down-ish
 		src := model3d.XYZ(rng.NormFloat64(), rng.NormFloat64(), 3+rng.Float64()*3)
@@ -111,7 +111,7 @@ func closedForms(r *vlib.Run) {
 	})
 
 	// emissive sphere seen directly
-	r.Section("closed.sphere", r.N(30, 300), vlib.SectionOpts{Sequential: true}, func(c *vlib.Case) {
+	r.Section("closed.sphere", r.N(30, 1500), vlib.SectionOpts{Sequential: true}, func(c *vlib.Case) {
 		rng := c.Rng
 		cam := randCamera(rng)
 		ph := newPinhole(cam, 24, 16)
@@ -147,7 +147,7 @@ func closedForms(r *vlib.Run) {
 }
 
 func cameras(r *vlib.Run) {
-	r.Section("camera", r.N(2000, 40000), vlib.SectionOpts{}, func(c *vlib.Case) {
+	r.Section("camera", r.N(2000, 200000), vlib.SectionOpts{}, func(c *vlib.Case) {
 		rng := c.Rng
 		cam := randCamera(rng)
 		if rng.Intn(3) == 0 { // explicit non-default screen axes
@@ -190,7 +190,7 @@ func cameras(r *vlib.Run) {
 		}
 		c.Nontrivial(fmt.Sprint("cam", wit))
 	})
-	r.Section("camera.directional", r.N(300, 5000), vlib.SectionOpts{}, func(c *vlib.Case) {
+	r.Section("camera.directional", r.N(300, 20000), vlib.SectionOpts{}, func(c *vlib.Case) {
 		rng := c.Rng
 		mn := model3d.XYZ(rng.NormFloat64(), rng.NormFloat64(), rng.NormFloat64()).Scale(3)
 		size := model3d.XYZ(0.05+rng.Float64()*4, 0.05+rng.Float64()*4, 0.05+rng.Float64()*4)
@@ -244,7 +244,7 @@ func randRay(rng *rand.Rand) *model3d.Ray {
 }
 
 func objects(r *vlib.Run) {
-	r.Section("objects.joined", r.N(2000, 40000), vlib.SectionOpts{}, func(c *vlib.Case) {
+	r.Section("objects.joined", r.N(2000, 200000), vlib.SectionOpts{}, func(c *vlib.Case) {
 		rng := c.Rng
 		n := 1 + rng.Intn(6)
 		var parts render3d.JoinedObject
@@ -280,7 +280,7 @@ func objects(r *vlib.Run) {
 		}
 		c.Nontrivial(fmt.Sprint("joined", n, best, any))
 	})
-	r.Section("objects.transformed", r.N(300, 5000), vlib.SectionOpts{}, func(c *vlib.Case) {
+	r.Section("objects.transformed", r.N(300, 20000), vlib.SectionOpts{}, func(c *vlib.Case) {
 		rng := c.Rng
 		mesh := model3d.NewMeshIcosphere(model3d.XYZ(rng.NormFloat64(), rng.NormFloat64(), rng.NormFloat64()), 0.5+rng.Float64(), 1+rng.Intn(3))
 		if rng.Intn(2) == 0 {
